@@ -108,6 +108,11 @@ theorem decCodec_printer : decCodec.Printer decQ decQd :=
       show decRdDeg (Nat.repr ((x + 9) / 10)) = none
       exact decRdDeg_repr _ (repr_not_d _)
     fmt_ne := fun x => repr_ne_empty _
+    rd_fmtCov := fun x => by simp [decCodec, decQ, Nat.toNat?_repr]
+    fmtCov_qc := fun x => by
+      have : ((x + 9) / 10 * 10 + 9) / 10 = (x + 9) / 10 := by omega
+      simp [decCodec, decQ, this]
+    qc_neg := fun _ => rfl
     rdDeg_fmtDeg := fun x _ => by
       show decRdDeg (decFmtDeg x) = some (decQd x)
       exact decRdDeg_fmtDeg x
@@ -133,7 +138,8 @@ def lossyNet : Net Nat :=
                ⟨"C", some (6, 7), none, .unused, .unused⟩],
     clusters := [.vectors [⟨"A", "B", 31, 32, 33, 0, 0, ""⟩] ⟨3, 2, [11, 1, 2, 12, 3, 13]⟩] }
 
-theorem lossyNet_WF : (quantNet decCodec decQ decQd lossyNet).WF decCodec (fun x => decQ x = x) (fun x => True ∧ decQd x = x) := by
+theorem lossyNet_WF :
+    (quantNet decCodec decQ decQ decQd lossyNet).WFc decCodec (fun x => decQ x = x) (fun x => decQ x = x) (fun x => True ∧ decQd x = x) := by
   decide
 
 /-- the same with output in degrees (`angles="360"`), an `<obs>` cluster with a direction, an angle, a distance and a
@@ -147,7 +153,8 @@ def lossyNetDeg : Net Nat :=
          (some ⟨3, 2, [1006009, 17, 23, 10201, 31, 4004001]⟩)] }
 
 theorem lossyNetDeg_WF :
-    (quantNet decCodec decQ decQd lossyNetDeg).WF decCodec (fun x => decQ x = x) (fun x => True ∧ decQd x = x) := by
+    (quantNet decCodec decQ decQ decQd lossyNetDeg).WFc decCodec (fun x => decQ x = x) (fun x => decQ x = x)
+      (fun x => True ∧ decQd x = x) := by
   decide
 
 end Gama.Export
